@@ -116,7 +116,13 @@ class Worker:
         except OSError:
             return ''
 
+    MAX_JOBS = 1500   # Enode::cgid_ctr is process-global and never reset: every new Egraph allocates up to it, so an
+                      # old worker gets slower and slower (measured 7x after 10^4 scripts); recycle the process
+
     def run(self, script, args=(), pipe=False, splits=(), trace=False, timeout=10.0):
+        self.jobs = getattr(self, 'jobs', 0) + 1
+        if self.p is not None and self.jobs % self.MAX_JOBS == 0:
+            self.close()
         if self.p is None:
             self._start()
         sb = script.encode('latin-1') if isinstance(script, str) else script
